@@ -3166,7 +3166,19 @@ func ruleSingletonStoreRecordsAll(w *World, r *Report, rule string) {
 			}
 			return
 		}})
-	bad := ""
+	// the instance parameter: the interface-typed parameter of the storing function
+	var inst types.Object
+	for _, f := range fi.Decl.Type.Params.List {
+		for _, nm := range f.Names {
+			if o := info.Defs[nm]; o != nil {
+				if _, isIface := o.Type().Underlying().(*types.Interface); isIface {
+					inst = o
+				}
+			}
+		}
+	}
+	isInst := func(e ast.Expr) bool { return inst != nil && objOf(info, e) == inst }
+	bad, badWhy := "", ""
 	n := 0
 	for _, ex := range fl.Exits() {
 		if ex.Panic {
@@ -3184,10 +3196,29 @@ func ruleSingletonStoreRecordsAll(w *World, r *Report, rule string) {
 			}
 		}
 		n++
-		if !sol.AtExit(ex).Has("stored") && bad == "" {
-			bad = w.Pos(ex.Pos)
+		if !sol.AtExit(ex).Has("stored") {
+			// which skip it is: the nil instance (either spelling of the test), or the text of the
+			// last condition the exit depends on - a second skip is a construct of its own, so the
+			// known finding about the nil instance does not cover it
+			why := "unconditional"
+			cs, ws := controllingCondsInfo(info, fi.Decl.Body, ex.Pos)
+			for i, cd := range cs {
+				if (ws[i] && isNilTestOf(info, cd, isInst, false)) || (!ws[i] && isNilTestOf(info, cd, isInst, true)) {
+					why = "nil-instance"
+					break
+				}
+				why = strings.ReplaceAll(exprStr(cd), " ", "")
+			}
+			if why != "nil-instance" {
+				r.Fail(rule, "setSingleton#unstored-exit:"+why, ex.Pos, "the success exit of %s here is reached without a store into the singleton table: eager creation takes the missing key for \"not constructed yet\" and runs the constructor again for the sibling descriptor", fi.Name())
+				continue
+			}
+			if bad == "" {
+				bad, badWhy = w.Pos(ex.Pos), why
+			}
 		}
 	}
+	_ = badWhy
 	if n == 0 {
 		r.Undecided(rule, con, fi.Decl.Pos(), "%s has no success exit the rule recognises", fi.Name())
 		return
